@@ -82,6 +82,83 @@ Section Sem.
 
   Definition max_val (mx : option N) : N := match mx with Some v => v | None => USIZE_MAX end.
 
+  (* sequence: thread every result of the prefix through the next node *)
+  Fixpoint cat_results (rf : node -> mst -> option (list mst)) (l : list node) (xs : list mst) : option (list mst) :=
+    match l with
+    | [] => Some xs
+    | c :: t => match obindm (rf c) xs with Some ys => cat_results rf t ys | None => None end
+    end.
+
+  (* Loop: k = completed iterations; entry = position at the start of the last iteration.
+     The decision is the one of ES RepeatMatcher in regress's counting: an empty iteration beyond min
+     fails; enter while k < max; exit once k >= min; greedy prefers iterating. Captures of the body are
+     reset at the start of every iteration and kept on exit. *)
+  Fixpoint loop_results (bodyf : mst -> option (list mst)) (mn : N) (mx : option N) (greedy : bool)
+           (egs ege : nat) (lf : nat) (k : N) (entry : nat) (y : mst) {struct lf} : option (list mst) :=
+    match lf with
+    | O => None
+    | S lf' =>
+      if (0 <? k) && (mn <? k) && (entry =? fst y)%nat then Some []
+      else
+        let enter_ok := k <? max_val mx in
+        let skip_ok := mn <=? k in
+        let iterate :=
+          match reset_groups (snd y) egs (ege - egs) with
+          | None => None
+          | Some g1 =>
+              match bodyf (fst y, g1) with
+              | None => None
+              | Some zs => obindm (loop_results bodyf mn mx greedy egs ege lf' (k + 1) (fst y)) zs
+              end
+          end in
+        if negb enter_ok && negb skip_ok then Some []
+        else if negb enter_ok then Some [y]
+        else if negb skip_ok then iterate
+        else match iterate with
+             | None => None
+             | Some it => Some (if greedy then it ++ [y] else y :: it)
+             end
+    end.
+
+  (* Loop1CharBody: the body is a single-character leaf *)
+  Fixpoint l1_results (code : list insn) (fwd : bool) (gs : list groupdata) (mn : N) (mx : option N) (greedy : bool)
+           (lf : nat) (k : N) (q : nat) {struct lf} : option (list mst) :=
+    match lf with
+    | O => None
+    | S lf' =>
+      let taken := if k <? max_val mx then run_insns code fwd q else Some None in
+      match taken with
+      | None => None
+      | Some None => Some (if mn <=? k then [(q, gs)] else [])
+      | Some (Some q') =>
+          match l1_results code fwd gs mn mx greedy lf' (k + 1) q' with
+          | None => None
+          | Some it => Some (if mn <=? k then (if greedy then it ++ [(q, gs)] else (q, gs) :: it) else it)
+          end
+      end
+    end.
+
+  (* a sequence of leaf nodes (the pieces of one string alternative) *)
+  Fixpoint pieces_run (lb : bool) (l : list node) (fwd : bool) (q : nat) : option (option nat) :=
+    match l with
+    | [] => Some (Some q)
+    | c :: t => match leaf_code lb c with
+                | Some code => match run_insns code fwd q with
+                               | Some (Some q') => pieces_run lb t fwd q'
+                               | other => other
+                               end
+                | None => None
+                end
+    end.
+
+  Definition strset_results (alts : list (list N)) (icase fwd : bool) (x : mst) : option (list mst) :=
+    obindm (fun a =>
+              match (if utf16_feature then None else lower_code_point_sequence a icase unicode) with
+              | Some pieces =>
+                  results_of x (pieces_run (negb fwd) (map node_of_piece (if fwd then pieces else rev pieces)) fwd (fst x))
+              | None => None
+              end) alts.
+
   Fixpoint ir_results (fuel : nat) (n : node) (fwd : bool) (x : mst) {struct fuel} : option (list mst) :=
     match fuel with
     | O => None
@@ -90,12 +167,7 @@ Section Sem.
       match n with
       | NEmpty => Some [x]
       | NGoal => None                                        (* only the top level carries Goal *)
-      | NCat l =>
-          (fix go (l : list node) (xs : list mst) : option (list mst) :=
-             match l with
-             | [] => Some xs
-             | c :: t => match obindm (ir_results f c fwd) xs with Some ys => go t ys | None => None end
-             end) l [x]
+      | NCat l => cat_results (fun c => ir_results f c fwd) l [x]
       | NAlt a b =>
           match ir_results f a fwd x, ir_results f b fwd x with Some u, Some v => Some (u ++ v) | _, _ => None end
       | NAnchor sol ml =>
@@ -133,25 +205,7 @@ Section Sem.
           | None => match next_if ix fwd h p (bracket_matches b) with
                     | Ok (Some p') => Some [(p', gs)] | Ok None => Some [] | Err _ => None end
           end
-      | NStringSet alts icase =>
-          (* alternatives in priority order; each is the piece sequence of its lowering *)
-          obindm (fun a =>
-                    match (if utf16_feature then None else lower_code_point_sequence a icase unicode) with
-                    | Some pieces =>
-                        let nodes := map node_of_piece (if fwd then pieces else rev pieces) in
-                        results_of x ((fix go (l : list node) (q : nat) : option (option nat) :=
-                                         match l with
-                                         | [] => Some (Some q)
-                                         | c :: t => match leaf_code (negb fwd) c with
-                                                     | Some code => match run_insns code fwd q with
-                                                                    | Some (Some q') => go t q'
-                                                                    | other => other
-                                                                    end
-                                                     | None => None
-                                                     end
-                                         end) nodes p)
-                    | None => None
-                    end) alts
+      | NStringSet alts icase => strset_results alts icase fwd x
       | NLookaround ng bw sg eg c =>
           match ir_results f c (negb bw) x with
           | None => None
@@ -159,51 +213,11 @@ Section Sem.
           | Some (y :: _) => Some (if ng then [] else [(p, snd y)])
           end
       | NLoop body mn mx greedy egs ege =>
-          (* k = completed iterations; entry = position at the start of the last iteration *)
-          (fix loop (lf : nat) (k : N) (entry : nat) (y : mst) {struct lf} : option (list mst) :=
-             match lf with
-             | O => None
-             | S lf' =>
-               if (0 <? k) && (mn <? k) && (entry =? fst y)%nat then Some []      (* empty iteration beyond min *)
-               else
-                 let enter_ok := k <? max_val mx in
-                 let skip_ok := mn <=? k in
-                 let iterate :=
-                   match reset_groups (snd y) egs (ege - egs) with
-                   | None => None
-                   | Some g1 =>
-                       match ir_results f body fwd (fst y, g1) with
-                       | None => None
-                       | Some zs => obindm (loop lf' (k + 1) (fst y)) zs
-                       end
-                   end in
-                 if negb enter_ok && negb skip_ok then Some []
-                 else if negb enter_ok then Some [y]
-                 else if negb skip_ok then iterate
-                 else match iterate with
-                      | None => None
-                      | Some it => Some (if greedy then it ++ [y] else y :: it)
-                      end
-             end) f 0 p x
+          loop_results (ir_results f body fwd) mn mx greedy egs ege f 0 p x
       | NLoop1CharBody body mn mx greedy =>
           match leaf_code (negb fwd) body with
           | None => None
-          | Some code =>
-            (fix loop (lf : nat) (k : N) (q : nat) {struct lf} : option (list mst) :=
-               match lf with
-               | O => None
-               | S lf' =>
-                 let taken := if k <? max_val mx then run_insns code fwd q else Some None in
-                 match taken with
-                 | None => None
-                 | Some None => Some (if mn <=? k then [(q, gs)] else [])
-                 | Some (Some q') =>
-                     match loop lf' (k + 1) q' with
-                     | None => None
-                     | Some it => Some (if mn <=? k then (if greedy then it ++ [(q, gs)] else (q, gs) :: it) else it)
-                     end
-                 end
-               end) f 0 p
+          | Some code => l1_results code fwd gs mn mx greedy f 0 p
           end
       | leaf =>
           match leaf_code (negb fwd) leaf with
